@@ -104,7 +104,8 @@ Never ==
           {Stmt("n_guard_field", gx),                                                     \* private key field of the guard
            Stmt("n_hold_field", gx), Stmt("n_destructure_guard", gx),                     \* private hold field / destructuring
            Stmt("n_scope_spawn_guard", gx),                                               \* send a key-holding guard
-           Stmt("n_ref_outlives_guard", gx)}                                              \* reference outliving the hold (C15)
+           Stmt("n_ref_outlives_guard", gx),                                              \* reference outliving the hold (C15)
+           Stmt("n_guard_map", gx)}                                                       \* std / parking_lot style `Guard::map` handing the holds to a closure
           \cup (IF gx = "rw_r" THEN {Stmt("n_write_through_read_guard", gx)} ELSE {})      \* C15: a shared hold gives no &mut
           \cup (IF TupleShaped(gx) THEN {Stmt("n_move_hold_out", gx), Stmt("n_take_holds", gx)} ELSE {})
           \cup (IF VecShaped(gx) THEN {Stmt("n_take_holds", gx)} ELSE {})                 \* D6: currently accepted
